@@ -72,7 +72,7 @@ P = {
 }
 # generators added after the fourth round of independently seeded changes (DESIGN.md 8.4 (v))
 ADD = {
- "C14": "Tracks filled through a composition are augmented in turn (the others must not move); tuned from_chords tracks are augmented (each entry rises exactly once). from_chords is applied to tracks in every key: opened bars inherit key and meter. selected_tracks may hold indices written from the end. from_chords runs with every instrument kind and with generic instruments narrowed by set_range (the first out-of-range chord raises the range error and is not placed). Objects shared between tracks of a composition are found by identity (only objects the caller handed in may sit in two tracks). Composition equality follows the contents: a separately built composition with equal tracks is equal; one entry different or one track less is not. Tuned from_chords with repeated chord names is enumerated (each entry rises exactly once). Rests written as empty containers go through add_notes and '+' with every instrument kind; != is asked both ways round.",
+ "C14": "Tracks filled through a composition are augmented in turn (the others must not move); tuned from_chords tracks are augmented (each entry rises exactly once). from_chords is applied to tracks in every key: opened bars inherit key and meter. selected_tracks may hold indices written from the end. from_chords runs with every instrument kind and with generic instruments narrowed by set_range (the first out-of-range chord raises the range error and is not placed). Objects shared between tracks of a composition are found by identity (only objects the caller handed in may sit in two tracks). Composition equality follows the contents: a separately built composition with equal tracks is equal; one entry different or one track less is not. Tuned from_chords with repeated chord names is enumerated (each entry rises exactly once). Rests written as empty containers go through add_notes and '+' with every instrument kind; != is asked both ways round. Single notes written with 4-6 accidentals go through every instrument kind; from_chords items longer than a bar cross several bar lines; a list ending in a bare name that is voiced out of the range must be refused.",
  "C12": "The from_* constructors are also applied to used containers, to slash chords over their own notes and to polychords of chords that share notes. Neighbours whose octave numbers and pitch order disagree (Cb-5 / B#-4) go through every removal form.",
  "C06": "Malformed parts are also embedded inside polychords. The empty chord is also the lower part of slash chords (own-root basses included). The empty string and empty slash / polychord parts ('', 'C/', 'C|', '||', ...) are enumerated and generated as malformed text.",
  "C05": "Recognition questions of 8-30 entries with repeats are sampled. Each instance is checked after scales of the same kind and tonic over other octave counts were asked; recognition is asked with lists, tuples, sets, iterators and generators. Diatonic positions are also written in descending order.",
